@@ -27,6 +27,13 @@ var verifC14Src = []string{
 	"case when @i < @j then @s else @t end", "case @i when @j then 1 else @i end",
 	"(select max(a) from t)", "(select count(*) from t where a < @i)", "@i = any (select a from t)",
 	"format('%s-%d', @s, @i)", "base64_encode(@s)", "hex_encode(@t)",
+	"datetime(@d, 'UTC')", "datetime(@s, 'UTC')", "datetime(@i)", "string(@d)", "integer(@d)", "float(@d)", "boolean(@s)", "ternary(@i)",
+	"add_month(@d, 1)", "trunc_day(@d)", "datetime_format(@d, @s)", "utc(@d)", "unix_time(@d)", "weekday(@d)",
+	"date_diff(@d, datetime(@s))", "time_diff(@d, @d)", "nullif(@d, @d)", "coalesce(@d, @s)", "if(@z is null, @d, @s)",
+	"round(@f)", "round(@i, -1)", "ceil(@i)", "floor(@f, 1)", "abs(@f)", "pow(@i, 2)", "log(@f + 3)",
+	"len(@i)", "upper(@i)", "trim(@i)", "substring(@s from 2 for 2)", "lpad(@i, 5, '0')", "replace(@s, @t, @s)",
+	"@d < @d", "@d = @s", "@d between @d and @d", "@d in (@d, @s)", "(@i, @d) = (@j, @d)", "@s || @i || @f",
+	"case when @d is not null then @d else @s end",
 }
 
 var verifC14Exprs []parser.QueryExpression
@@ -41,6 +48,9 @@ var verifC14StmtSrc = []string{
 	`select distinct b, a % 2 from t;`,
 	`update t set b = b || @s where a < @j;`,
 	`select t.a, u.b from t inner join t as u on t.a = u.a and u.a < @j;`,
+	`execute 'select ' || @s2;`,
+	`var @cmd := 'select a from t'; execute @cmd; execute @cmd;`,
+	`echo @s; print @s; printf '%s', @s;`,
 }
 
 func VerifC14Setup() {
@@ -88,6 +98,7 @@ func verifC14Init(scope *ReferenceScope) *verifC14State {
 		st.cells = append(st.cells, []value.Primary{value.NewInteger(st.a[r]), value.NewString(st.b[r])})
 	}
 	verifTempTable(scope, "t", []string{"a", "b"}, st.cells)
+	verifVar(scope, "s2", value.NewString("'lit'"))
 	return st
 }
 
@@ -121,33 +132,6 @@ func (st *verifC14State) tableUnchanged(tag string, bWant []string) {
 		bs, ok := v.RecordSet[r][1][0].(*value.String)
 		verifAssert(tag+": string cell unchanged", ok && bs.Raw() == bWant[r])
 	}
-}
-
-func verifSamePrimary(x, y value.Primary) bool {
-	switch a := x.(type) {
-	case *value.Integer:
-		b, ok := y.(*value.Integer)
-		return ok && a.Raw() == b.Raw()
-	case *value.Float:
-		b, ok := y.(*value.Float)
-		return ok && (a.Raw() == b.Raw() || (a.Raw() != a.Raw() && b.Raw() != b.Raw()))
-	case *value.String:
-		b, ok := y.(*value.String)
-		return ok && a.Raw() == b.Raw()
-	case *value.Datetime:
-		b, ok := y.(*value.Datetime)
-		return ok && a.Raw().Equal(b.Raw())
-	case *value.Boolean:
-		b, ok := y.(*value.Boolean)
-		return ok && a.Raw() == b.Raw()
-	case *value.Ternary:
-		b, ok := y.(*value.Ternary)
-		return ok && a.Ternary() == b.Ternary()
-	case *value.Null:
-		_, ok := y.(*value.Null)
-		return ok
-	}
-	return false
 }
 
 // Evaluating an expression (operators, built-in functions, CASE, subqueries) leaves every variable
@@ -205,8 +189,17 @@ func VerifC14Statements() {
 	st.unchanged("after the first run")
 	// second run: for programs that declare something, only the last statement is repeated
 	again := prog
-	if pi == 2 || pi == 3 {
+	if pi == 2 || pi == 3 || pi == 9 {
 		again = prog[len(prog)-1:]
+	}
+	if s2, err := scope.GetVariable(parser.Variable{Name: "s2"}); true {
+		sv, ok := s2.(*value.String)
+		verifAssert("a variable that EXECUTE only reads keeps its value", err == nil && ok && sv.Raw() == "'lit'")
+	}
+	if pi == 9 {
+		cv, err := scope.GetVariable(parser.Variable{Name: "cmd"})
+		cs, ok := cv.(*value.String)
+		verifAssert("the statement text variable is unchanged after EXECUTE", err == nil && ok && cs.Raw() == "select a from t")
 	}
 	if pi == 6 {
 		// UPDATE: its effect must be exactly one application per run
@@ -223,6 +216,11 @@ func VerifC14Statements() {
 	st.tableUnchanged("after the first run", st.b)
 	rows2, err2 := run(again)
 	verifAssert("statement runs again", err2 == nil)
+	if pi == 9 {
+		// the first run executed the text twice, the repetition once
+		verifAssert("EXECUTE of the same text returns the same rows each time", len(rows1) == 2*len(rows2))
+		rows1 = rows1[:len(rows2)]
+	}
 	verifAssert("same number of rows on the second run", len(rows1) == len(rows2))
 	for r := 0; r < len(rows1) && r < len(rows2); r++ {
 		verifAssert("same row width", len(rows1[r]) == len(rows2[r]))
